@@ -540,11 +540,13 @@ def fixed_mpint(ctx, report, cb, pb, rule):
                         report.add(rule, pf.construct + '@value[bits=%d mod 8,pad=%d]' % (b % 8, length - need),
                                    '%d bytes %s.. are parsed as %s (cursor advance %s), expected the %d bit integer' % (length, want.hex()[:24], hex(pv)[:18] if isinstance(pv, int) else pv, adv, b))
                         return
-                if need > 1:
+                for short in sorted({need - 1, need // 2, need // 4, (need - 1) // 4, 1} - {0}):
+                    if short >= need:
+                        continue
                     report.count(rule)
                     try:
-                        got = compose_mpint_by_ast(cb, v, 'compose_mpint', {'length': need - 1})
-                        report.add(rule, cf.construct + '@truncation', 'a %d bit integer is composed into %d bytes (%s..) instead of being refused' % (b, need - 1, got.hex()[:24]))
+                        got = compose_mpint_by_ast(cb, v, 'compose_mpint', {'length': short})
+                        report.add(rule, cf.construct + '@truncation', 'a %d bit integer is composed into %d byte(s) (%s..) instead of being refused' % (b, short, got.hex()[:24]))
                         return
                     except Raised as e:
                         if 'InvalidValue' not in e.what:
